@@ -13,7 +13,9 @@
 (* Characters are symbols: one-character strings stand for themselves,     *)
 (* longer names for the special characters:                                *)
 (*   sq ' dq " bs \ nl tab cr ff vt nul esc(0x1b) uni(U+00E9 / byte 0xE9)  *)
-(*   sur (lone surrogate U+D800, str only)                                 *)
+(*   sur (lone surrogate U+D800, str only)   soh (0x01)                    *)
+(* Two observation points: the colouriser's text (Shown) and the text of   *)
+(* the HTML written for it (HtmlShown = after stanutils.html2stan).        *)
 (* TLC enumerates every string over the alphabet up to MaxLen, for str and *)
 (* bytes, with and without line breaks allowed.                            *)
 (***************************************************************************)
@@ -67,11 +69,20 @@ ImplShown(s, by, lbok) ==
        body   == IF lbok THEN JoinNl(SplitNl(s, <<>>), by) ELSE EscLine(s, by)
    IN (IF by THEN <<"b">> ELSE <<>>) \o quote \o DropNul(body) \o quote
 
+\* the value as it reaches the page: ParsedRstDocstring.to_stan -> HTML -> stanutils.html2stan (:13-32), which
+\* spells the C0 control characters XML does not allow (all but \t \n \f \r) as \xNN, two hex digits
+C0Hex(ch) == CASE ch = "nul" -> <<"0", "0">> [] ch = "soh" -> <<"0", "1">> [] ch = "vt" -> <<"0", "b">> [] ch = "esc" -> <<"1", "b">>
+HtmlText(s) == Flat([i \in DOMAIN s |-> IF s[i] \in {"nul", "soh", "vt", "esc"} THEN <<"bs", "x">> \o C0Hex(s[i]) ELSE <<s[i]>>])
+
 \* ------------------------------------------------- reference: Python's literal reader
 Inv == <<"INVALID">>
 Cons(x, rest) == IF rest = Inv THEN Inv ELSE <<x>> \o rest
+HexDigits == {"0", "1", "8", "9", "a", "b", "c", "d", "e", "f"}
+\* the character \xh1h2: a symbol of the alphabet, or the generic symbol "xh1h2" for any other code point
 Hex(h1, h2) == CASE h1 = "0" /\ h2 = "0" -> "nul" [] h1 = "1" /\ h2 = "b" -> "esc" [] h1 = "e" /\ h2 = "9" -> "uni"
-                 [] h1 = "0" /\ h2 = "c" -> "ff" [] h1 = "0" /\ h2 = "b" -> "vt" [] OTHER -> "none"
+                 [] h1 = "0" /\ h2 = "c" -> "ff" [] h1 = "0" /\ h2 = "b" -> "vt" [] h1 = "0" /\ h2 = "1" -> "soh"
+                 [] h1 \in HexDigits /\ h2 \in HexDigits -> "x" \o h1 \o h2
+                 [] OTHER -> "none"
 Simple(e) == CASE e = "n" -> "nl" [] e = "t" -> "tab" [] e = "r" -> "cr" [] e = "f" -> "ff" [] e = "v" -> "vt" [] OTHER -> e
 RECURSIVE Body(_, _, _, _)
 \* s[i..] = rest of the literal after the opening quote; q = 1 | 3 quote width; the closing quote must end s
@@ -116,8 +127,10 @@ Shown == ImplShown(val, by, lbok)
 Classes == (IF ~by /\ "nul" \in Range(val) /\ ~FixNul THEN {"str-nul-dropped"} ELSE {})
            \cup (IF by /\ ~FixBytesQuote /\ \E l \in Range(IF lbok THEN SplitNl(val, <<>>) ELSE <<val>>) : ReprUsesDq(l)
                    THEN {"bytes-single-quote"} ELSE {})
-ReadsBack   == PyDecode(Shown, by) = val
+HtmlShown   == HtmlText(Shown)
+ReadsBack   == PyDecode(Shown, by) = val /\ PyDecode(HtmlShown, by) = val
 DesignKnown == ReadsBack \/ (Classes # {} /\ Classes \subseteq Open)
 Emit == PrintT(ToJson([val |-> val, by |-> by, lbok |-> lbok, shown |-> Shown, dec |-> PyDecode(Shown, by),
+                       html |-> HtmlShown, dech |-> PyDecode(HtmlShown, by),
                        cls |-> IF ReadsBack THEN {} ELSE Classes]))
 =============================================================================
